@@ -27,11 +27,15 @@ def run(ctx):
                       "to the job with the same group id")
     ctx.rule("R06-5", "Job::all_members_stopped is false exactly when some pid is not in pids_stopped; the job is marked "
                       "stopped only under it")
+    ctx.rule("R06-7", "lookups by group id see every job whatever its id: they iterate the table, or scan ids up to a constant "
+                      "bound - never up to jobs.len(), which is smaller than the highest id once a lower-numbered job has "
+                      "finished")
     ctx.rule("R06-6", "Job.pids stays in launch order (fg hands it to wait_fg_job, which takes pids.last() for the stage whose "
                       "status counts): crate-wide, the vector is only appended to and shortened by order-preserving "
                       "removal - no swap_remove / sort / reverse / rotate / swap / insert")
     for crate in ctx.crates:
         order_rule(ctx, crate)
+        id_scan_rule(ctx, crate, "R06-7")
         lookup_rule(ctx, crate)
         routing_rule(ctx, crate)
         if crate.kind == "bin":
@@ -332,3 +336,33 @@ def order_rule(ctx, crate):
                    detail=None if ok else "after a member other than the last has been removed this way, pids.last() is no longer "
                    "the last stage: `fg` reports the status of a middle stage")
     ctx.floor("R06-6", crate, "mutations of Job.pids", n, 2)
+
+
+def id_scan_rule(ctx, crate, rule):
+    n = 0
+    for p, b in sorted(crate.bodies.items()):
+        if b.kind != "fn" or not p.startswith("shell::Shell::"):
+            continue
+        # loops that look a job up with jobs.get(&i)
+        for h, blocks in sorted(b.loops().items()):
+            gets = [bb for bb in blocks if b.term(bb)["k"] == "call" and last_seg(b.callee(b.term(bb))) in ("get", "get_mut", "contains_key")
+                    and any(flow.is_field_named(x, "jobs") for a in b.call_args(bb) for x in mir.subexprs(b.expand_vars(strip_sites(a))))]
+            if not gets:
+                continue
+            n += 1
+            bad = None
+            for x in blocks:
+                for tgt, atom, val in b.switch_edges(x):
+                    if tgt in blocks:
+                        continue
+                    a = b.expand_vars(strip_sites(atom))
+                    if a[0] == "bin" and a[1] in ("Ge", "Gt", "Eq", "Lt", "Le", "Ne"):
+                        for side in (a[2], a[3]):
+                            if any(sub[0] == "call" and last_seg(sub[1]) == "len" and any(
+                                    flow.is_field_named(y, "jobs") for y in mir.subexprs(sub)) for sub in mir.subexprs(side)):
+                                bad = x
+            ctx.ob(rule, p, "the id scan is not bounded by the number of jobs", bad is None,
+                   key="%s|%s|scan-bounded-by-len" % (rule, p), where=b.loc(bad if bad is not None else h), crate=crate.kind,
+                   detail=None if bad is None else "with jobs 1 and 2 alive and job 1 finished, jobs.len() is 1 and job 2 is "
+                   "never found: it cannot be marked running / stopped / done, nor removed")
+    ctx.floor(rule, crate, "id-scan loops over the job table", n, 6)
